@@ -316,6 +316,7 @@ type scenario struct {
 	viaNew     bool                     // the Writer is built by the deprecated constructor NewWriter(WriterConfig)
 	defBal     bool                     // Writer.Balancer left unset: the default round-robin (one goroutine: message j of the run goes to partition j mod n)
 	writeTO    time.Duration            // > 0: Writer.WriteTimeout
+	twoClus    bool                     // wire: a second cluster and a second Writer share the Transport (pool per address)
 	codec      int                      // > 0: Writer.Compression is this codec (1 gzip, 2 snappy, 3 lz4, 4 zstd) instead of the derived one
 	prodMax    int16                    // wire: brokers advertise Produce only up to this version (0 = whatever the cluster model advertises)
 	stallAt    int                      // wire: the broker stops reading in the middle of the n-th produce request to arrive (special "stallwrite")
@@ -1075,6 +1076,7 @@ func (b *builder) wireScenario(i int) *scenario {
 	if i%5 == 4 {
 		sc.closeAt = time.Duration(500+r.Intn(4000)) * time.Microsecond // Close while requests are on the wire
 	}
+	sc.twoClus = i%3 == 0
 	sc.prodMax = []int16{0, 3, 4, 7, 5, 3}[i%6] // old brokers: the Produce version the Transport negotiates down to
 	// leader moves after a few produce requests, on random partitions
 	nm := 1 + r.Intn(3)
@@ -1165,10 +1167,43 @@ func run(sc *scenario, out *bufio.Writer) {
 	}
 	f.wantAcks, f.wantAttrs = int16(w.RequiredAcks), int16(w.Compression)
 	var wc *wireCluster
+	var f2 *fakeRT
 	if sc.wire > 0 {
-		wc = newWireCluster(f, sc.wire, sc.nparts, append([]leaderMove(nil), sc.moves...))
+		wc = newWireCluster(f, sc.wire, sc.nparts, append([]leaderMove(nil), sc.moves...), 'b')
 		tr := &kafka.Transport{Dial: wc.Dial, MetadataTTL: 2 * time.Millisecond, IdleTimeout: time.Second, DialTimeout: time.Second}
 		w.Transport, w.Addr = tr, wc.bootAddr()
+		if sc.twoClus {
+			// one Transport, two clusters with the same topics: another Writer (Addr = the other cluster) has used the
+			// Transport first.  Each Writer must talk to the cluster its Addr names: the probe lands in the other
+			// cluster only, nothing of this scenario's traffic does.
+			f2 = newFake()
+			for t, n := range sc.nparts {
+				f2.nparts[t] = n
+			}
+			f2.wantAcks, f2.wantAttrs = int16(kafka.RequireOne), 0
+			wc2 := newWireCluster(f2, 1, sc.nparts, nil, 'c')
+			tr.Dial = func(ctx context.Context, network, addr string) (net.Conn, error) {
+				if strings.HasPrefix(addr, "c") {
+					return wc2.Dial(ctx, network, addr)
+				}
+				return wc.Dial(ctx, network, addr)
+			}
+			var t0 string
+			for t := range sc.nparts {
+				if t0 == "" || t < t0 {
+					t0 = t
+				}
+			}
+			w2 := &kafka.Writer{Addr: wc2.bootAddr(), Topic: t0, Transport: tr, BatchSize: 1, MaxAttempts: 2, RequiredAcks: kafka.RequireOne,
+				BatchTimeout: time.Millisecond}
+			pctx, pcancel := context.WithTimeout(context.Background(), 3*time.Second)
+			if err := w2.WriteMessages(pctx, kafka.Message{Key: []byte("probe"), Value: []byte("x")}); err != nil {
+				fmt.Fprintf(os.Stderr, "writer driver: probe write to the second cluster failed: %v\n", err)
+			}
+			pcancel()
+			w2.Close()
+			defer wc2.close()
+		}
 		w.WriteBackoffMin, w.WriteBackoffMax = 2*time.Millisecond, 6*time.Millisecond
 		wc.stallAt = sc.stallAt
 		wc.prodMax = sc.prodMax
@@ -1663,6 +1698,27 @@ func run(sc *scenario, out *bufio.Writer) {
 	if !stuck {
 		st := w.Stats()
 		stats = fmt.Sprintf("w=%d,m=%d,b=%d,e=%d,r=%d,maxn=%d,maxb=%d", st.Writes, st.Messages, st.Bytes, st.Errors, st.Retries, st.BatchSize.Max, st.BatchBytes.Max)
+	}
+	if f2 != nil {
+		// the other cluster holds the probe and nothing else; this scenario's cluster does not hold the probe
+		f2.mu.Lock()
+		n2 := 0
+		for _, l := range f2.logs {
+			n2 += len(l)
+		}
+		f2.mu.Unlock()
+		f.mu.Lock()
+		if n2 != 1 {
+			f.multi++
+		}
+		for _, l := range f.logs {
+			for _, k := range l {
+				if k == "probe" {
+					f.multi++
+				}
+			}
+		}
+		f.mu.Unlock()
 	}
 	render(evs, unsent, stuck, stats)
 }
